@@ -115,7 +115,7 @@ def replay(d):
 
 def check(run):
     run.level = "fault_enumeration"
-    run.deductive(PC.MODULES)
+    PC.deductive(run)
     rnd = random.Random(run.seed)
     batch = BATCH
     base = P.rebalance(batch)
